@@ -52,7 +52,8 @@ class Runner:
         self.opt, self.params = opt, params
         self.ng = len(draw["groups"])
         self.numeric = numeric and draw["dtype"] == "float64" and draw["pdtype"] == "float64"
-        self.hy = [{"lr": g.get("lr0", 1), "mom": g.get("mom0", 1), "b1": g.get("b10", 1), "wd": g.get("wd0", 0)} for g in draw["groups"]]
+        self.hy = [{"lr": g.get("lr0", 1), "mom": g.get("mom0", 1), "b1": g.get("b10", 1), "wd": g.get("wd0", 0), "freq": g["freq"]}
+                   for g in draw["groups"]]
         self.abstract = [realopt.abstract_group(opt, gi, g) for gi, g in enumerate(draw["groups"])]
         self.meta = [realopt.ref_blocks(opt, gi, g) for gi, g in enumerate(draw["groups"])]
         self.refs = []
@@ -180,7 +181,7 @@ class Runner:
                     mism.append((f"g{gi+1}.load.state_restored", f"every state tensor and the step counter ({sa}) as saved",
                                  f"step {sb}, differs in {diff[:4]}"))
             for gi, g in enumerate(self.draw["groups"]):
-                for key in ("lr", "mom", "b1", "wd"):
+                for key in ("lr", "mom", "b1", "wd", "freq"):
                     if not realopt.hyper_equals(self.opt, gi, g, key, self.hy[gi][key]):
                         mism.append((f"g{gi+1}.load.param_group.{key}", "value in force when saved", "different"))
         self.trace.append({"ev": "Load"})
